@@ -141,6 +141,11 @@ def parseObs (s : String) : Option (Obs × List (Nat × Nat)) :=
 def monitor (op obs : String) : String :=
   match parseOp op with
   | none => if obs = "bad-op" then "ok" else "FAIL bad-op"
+  | some _ =>
+  if obs = "HANG" then "FAIL machine-hung (never reached the expected quiescent point / never consumed a delivered message)" else
+  if obs.startsWith "PANIC" then "FAIL panic" else
+  match parseOp op with
+  | none => "FAIL bad-op"
   | some o =>
     match parseObs obs with
     | none => "FAIL unparsable-observation"
